@@ -21,7 +21,7 @@ P = {
                  "C13_cookie_readers_agree", "C13_plain_line_plain_for",
                  "C13_F1_pinned_refuted", "C13_F1_pinned_refuted_decision", "C13_F2_pinned_refuted", "C13_F3_pinned_refuted",
                  "C13_F4_pinned_refuted", "C13_F4_pinned_refuted_view", "C13_F6_pinned_refuted", "C13_F7_pinned_refuted",
-                 "C13_F3b_refuted", "C13_F5_refuted", "C13_F5_refuted_handover", "C13_F8_refuted", "C13_F9_refuted", "C13_F11_refuted",
+                 "C13_F3b_refuted", "C13_F5_refuted", "C13_F5_refuted_handover", "C13_F8_refuted", "C13_F9_pinned_refuted", "C13_F11_pinned_refuted",
                  "C13_nonvacuous", "C13_nonvacuous_pinned", "C13_nonvacuous_redirect",
                  "C13_deployed_decision_same_url", "C13_F10_refuted"],
     "streams": [{
@@ -29,7 +29,7 @@ P = {
         "overlay": dict(ASSEMBLY_OVERLAY, **{"internal/zzverif/c13/c13_test.go": "c13/c13_test.go"}),
         "eval_module": "Run.Eval_C13", "check_term": "check_repo",
         "n_quick": 1100, "n_thorough": 24000,
-        "findings": {3: "C13-F3b", 5: "C13-F5", 8: "C13-F8", 9: "C13-F9", 11: "C13-F11"},
+        "findings": {3: "C13-F3b", 5: "C13-F5", 8: "C13-F8"},
         "shard": 100,
     }, {
         "name": "deployed", "pkg": "./internal/zzverif/c13", "test": "TestVerifC13Deployed",
@@ -94,10 +94,10 @@ P = {
                   "executor's two-phase use of the view and the three Finalize) reach the same decision incl. the redirect target, match "
                   "the same rule, answer every read of the view alike and hand the same headers and cookies over - outside the guards of "
                   "the findings that are open in the tree.  The theorems hold for every subset of the repairs (record `fixes`); for "
-                  "/repo (six findings repaired by fix: commits) the open guards are: a Cookie(n) read whose own parts of the Cookie line "
+                  "/repo (eight findings repaired by fix: commits) the open guards are: a Cookie(n) read whose own parts of the Cookie line "
                   "are not plain and sanitised cookie values on hand-over (C13-F5), Headers() read as a whole map (C13-F8: the key Host; "
-                  "every other key is proved equal), the body when Envoy conveys it in `body` (C13-F9), a request with a query string "
-                  "when Envoy conveys the target the documented way (C13-F11), blank-padded values of a header added twice (C13-F3b); "
+                  "every other key is proved equal), blank-padded values of a header added twice (C13-F3b) - captures, header names, Host, "
+                  "URL parts, the encoded-slash check, the body in either Envoy field and the query inside Envoy's `path` are unguarded; "
                   "each open or repaired finding has a proved witness (differs without the repair, agrees with it, same request).  "
                   "Separately: conveyed through X-Forwarded-* by a trusted proxy (the decision service as deployed) a request gives the "
                   "same method, scheme, host, path and query as when received directly unless the query is not its own re-encoding "
